@@ -118,6 +118,9 @@ func (o *opener) Open() (store.FileReader, error) {
 
 // GetPieceReader returns a reader for piece pi.
 func (t *Torrent) GetPieceReader(pi int) (storage.PieceReader, error) {
+	if pi < 0 {
+		return nil, fmt.Errorf("invalid piece index %d: negative", pi)
+	}
 	if pi >= t.NumPieces() {
 		return nil, fmt.Errorf("invalid piece index %d: num pieces = %d", pi, t.NumPieces())
 	}
